@@ -76,6 +76,9 @@ pub enum Op {
     IncStrong(u16),
     DecStrong(u16),
     DropLoose(u16),
+    /// `Weak::into_raw` on a Weak the program holds / `Weak::from_raw` back
+    WeakIntoRaw(u16),
+    WeakFromRaw(u16),
     /// apply `op` k times (high multiplicities, many Weak handles, large
     /// counts, link tables that grow across several rehash boundaries)
     Repeat { op: Box<Op>, k: u8 },
@@ -174,6 +177,8 @@ pub fn op_compact(op: &Op) -> String {
         Op::IncStrong(p) => format!("IncStrong({})", p),
         Op::DecStrong(p) => format!("DecStrong({})", p),
         Op::DropLoose(v) => format!("DropLoose({})", v),
+        Op::WeakIntoRaw(w) => format!("WeakIntoRaw({})", w),
+        Op::WeakFromRaw(k) => format!("WeakFromRaw({})", k),
         Op::Repeat { op, k } => format!("{}x[{}]", k, op_compact(op)),
         Op::Probe => "Probe".into(),
     }
